@@ -597,7 +597,28 @@ impl StateCheck for C17 {
                     let o4 = cli::run(&cli::sv(&["-c", "@c.csv", "-l", "PENINSULA", a, "@same.out", b, "@same.out"]), &[("c.csv", text.as_bytes())], &["same.out"], Some(7), Duration::from_secs(10));
                     out.regime("cli_same_path_for_two_outputs");
                     let got = o4.files.iter().find(|(k, _)| k == "same.out").and_then(|(_, b)| b.clone());
-                    if o4.status != Some(0) || got.is_none() || !(got == raw(fa) || got == raw(fb)) {
+                    // byte-identical to one of the two documents of the ordinary run, or (the order of hash-ordered parts may
+                    // differ between two processes) at least ONE complete document of the right size: valid JSON that reads
+                    // back, well-formed XML, or a report without markup
+                    let complete = |g: &Vec<u8>| -> bool {
+                        let t = String::from_utf8_lossy(g);
+                        let lens: Vec<usize> = [raw(fa), raw(fb)].iter().flatten().map(|b| b.len()).collect();
+                        let size_ok = lens.iter().any(|l| (g.len() as f64 - *l as f64).abs() <= 0.02 * *l as f64 + 16.0);
+                        let tt = t.trim_start_matches('\u{feff}').trim_start();
+                        let one = if tt.starts_with('{') {
+                            serde_json::from_str::<EnergyPerformance>(&t).is_ok()
+                        } else if tt.starts_with('<') {
+                            xmlcheck::parse(&t).is_ok()
+                        } else {
+                            !t.contains("</") && !t.contains("\":") && parse_plain(&t).is_ok()
+                        };
+                        size_ok && one
+                    };
+                    let ok4 = match &got {
+                        Some(g) => Some(g) == raw(fa).as_ref() || Some(g) == raw(fb).as_ref() || complete(g),
+                        None => false,
+                    };
+                    if o4.status != Some(0) || !ok4 {
                         out.viol("cli_same_path_for_two_outputs_holds_one_document", &[], format!("cteepbd -c <file> -l PENINSULA {a} X {b} X"), format!("exit {:?}; X ({} bytes) is neither the {a} nor the {b} document of a run into separate paths", o4.status, got.map(|g| g.len()).unwrap_or(0)), "one complete document");
                     }
                 }
